@@ -753,8 +753,7 @@ Section XmlOracles.
             else if c1 =? 63 then                                          (* PI ::= '<?' PITarget (S ...)? '?>' *)
               match lex_name r1 with
               | Some (n, r2) =>
-                if is_xml_target n then XLErr
-                else
+                (* a declaration that is not at the start of the text is skipped like a processing instruction *)
                   match r2 with
                   | c2 :: _ =>
                     if is_xws c2 || starts [63; 62] r2 then
@@ -832,7 +831,9 @@ Section XmlOracles.
     | XEmpty n a :: r => XEmpty n a :: px_filter (match stack with _ :: st => true :: st | [] => [] end) r
     | XClose n :: r => XClose n :: px_filter (match stack with _ :: st => st | [] => [] end) r
     | XTxt s :: r =>
-      if ws_only s then
+      (* character data at document level (outside the document element) is skipped, whatever it is *)
+      if match stack with [] => true | _ :: _ => false end then px_filter stack r
+      else if ws_only s then
         let sole := match r, stack with XClose _ :: _, false :: _ => true | _, _ => false end in
         if sole then XTxt s :: px_filter (match stack with _ :: st => true :: st | [] => [] end) r
         else px_filter stack r
